@@ -139,9 +139,16 @@ def run(chk):
         data = {c: [rng.choice(values[c]) for _ in range(nrow)] for c in use}
         data["clone_count"] = [rng.randint(1, 9) for _ in range(nrow)]
         data["note"] = [rng.choice(["x", None, "TRAV1-1*01"]) for _ in range(nrow)]
+        # missing cells come as None, float NaN or pandas' NA (object columns holding pd.NA; nullable "string" columns)
+        na_kind = rng.choice(["none", "none", "pd.NA", "string-dtype"])
+        if na_kind == "pd.NA":
+            data = {c: [pd.NA if v is None else v for v in vals] for c, vals in data.items()}
         # row labels: unique in any order, or repeated (tables concatenated without ignore_index) - cells are cells either way
         idx = rng.sample(range(100), nrow) if rng.random() < 0.65 else [rng.randrange(max(1, nrow // 2)) for _ in range(nrow)]
         df = pd.DataFrame(data, index=idx)
+        if na_kind == "string-dtype":
+            for c in rng.sample(use, rng.randint(1, len(use))):
+                df[c] = df[c].astype("string")
         mapper = None
         mk = {"swap": 0.5, "chain": 0.6, "multi": 0.75}.get(forced, rng.random())
         if mk < 0.4 and use:
@@ -195,7 +202,7 @@ def run(chk):
 
         cols_after = [mapper.get(c, c) if mapper else c for c in df.columns]
         ftab = []
-        cellstr = lambda v: None if (v is None or (isinstance(v, float) and math.isnan(v))) else str(v)  # noqa
+        cellstr = lambda v: None if (v is None or v is pd.NA or (isinstance(v, float) and math.isnan(v))) else str(v)  # noqa
         for c_old, c_new in zip(df.columns, cols_after):
             if c_new in std_cols:
                 for v in set(x for x in df[c_old] if cellstr(x) is not None):
@@ -217,7 +224,7 @@ def run(chk):
             chk.violation(f"C18|standardize_dataframe|raises-{real[1]}", f"standardize_dataframe raised {real[1]}", meta)
             continue
         out = real[1]
-        cellstr = lambda v: None if (v is None or (isinstance(v, float) and math.isnan(v))) else str(v)  # noqa
+        cellstr = lambda v: None if (v is None or v is pd.NA or (isinstance(v, float) and math.isnan(v))) else str(v)  # noqa
         got = {"columns": list(out.columns), "index": [str(i) for i in out.index],
                "rows": [[cellstr(v) for v in row] for row in out.itertuples(index=False)]}
         if got != a[1]:
@@ -238,8 +245,8 @@ def run(chk):
             chk.violation(f"C18|standardize_dataframe|{name}", f"standardize_dataframe({name}) gave {str(r)[:80]} instead of ValueError", {})
 
     # ---- multimerge: reference outer/inner join on unique keys
-    for _ in range(20 if not thorough else 200):
-        nt = rng.randint(2, 4)
+    for it in range(24 if not thorough else 200):
+        nt = rng.randint(2, 5) if it >= 8 else rng.choice([4, 5])
         keys_all = [f"k{i}" for i in range(8)]
         dfs, suffixes = [], []
         for i in range(nt):
@@ -249,7 +256,9 @@ def run(chk):
             suffixes.append(f"s{i}")
         if rng.random() < 0.2:
             suffixes.append("unused")              # more suffixes than tables: zip() ignores the rest
-        how = rng.choice(["outer", "inner", None])
+        how = rng.choice(["outer", "inner", None, "left", "right"])
+        if it < 8 and nt >= 4:
+            how = ("left", "right")[it % 2]        # many tables with a one-sided join: the grouping of the pairwise merges matters here
         mode = rng.choice(["column", "index", "suffix-column", "suffix-index"])
         kw = {} if how is None else {"how": how}
         snap = [d.copy(deep=True) for d in dfs]
@@ -274,6 +283,15 @@ def run(chk):
         chk.count("multimerge:" + mode)
         if any(not a.equals(b) for a, b in zip(dfs, snap)):
             chk.violation("C18|multimerge|mutates-input", "multimerge modified an input table", meta)
+        # the tables actually handed over (index-keyed forms): values, column labels and index must be as before the call
+        passed = dfs if mode == "suffix-column" else dfs2
+        want_passed = (dfs if mode == "suffix-column" else
+                       [d.rename(columns={"val": f"val{i}"}) for i, d in enumerate(snap)] if mode == "column" else
+                       [d.rename(columns={"val": f"val{i}"}).set_index("key") for i, d in enumerate(snap)] if mode == "index" else
+                       [d.set_index("key") for d in snap])
+        if any(list(a.columns) != list(b.columns) or not a.equals(b) for a, b in zip(passed, want_passed)):
+            chk.violation("C18|multimerge|mutates-passed-table", f"multimerge({mode}) changed a table it was given (values, column labels or index)",
+                          {**meta, "columns_after": [list(a.columns) for a in passed]})
         if real[0] != "ok":
             chk.violation(f"C18|multimerge|{mode}|raises-{real[1]}", f"multimerge raised {real[1]}", meta)
             continue
@@ -281,11 +299,14 @@ def run(chk):
         if "key" in out.columns:
             out = out.set_index("key")
         keysets = [set(d.index) for d in named]
-        want_keys = set.union(*keysets) if how in (None, "outer") else set.intersection(*keysets)
+        # reference join: union / intersection of the key sets; 'left' keeps the keys of the first table (every table's cells where present);
+        # 'right' is checked against the modelled fold only
+        want_keys = (set.union(*keysets) if how in (None, "outer") else set.intersection(*keysets) if how == "inner" else
+                     keysets[0] if how == "left" else keysets[-1])
         ok = set(out.index) == want_keys and out.index.is_unique
         want_cols = [c for d in named for c in d.columns]
         ok = ok and sorted(out.columns) == sorted(want_cols)
-        if ok:
+        if ok and how != "right":
             for d in named:
                 for k in want_keys:
                     for c in d.columns:
@@ -310,10 +331,16 @@ def run(chk):
             sfx = None
         op = {"op": "multimerge", "outer": how in (None, "outer"), "suffixes": sfx,
               "tables": [{"cols": list(d.columns), "rows": [[str(k), [cell(v) for v in d.loc[k].tolist()]] for k in d.index]} for d in src]}
-        a = core.run_driver([op])[0]
-        if a[0] != "ok":
-            chk.model_error(f"multimerge model op failed: {a}")
+        # the fold model (the code's own shape, every `how`); for outer / inner also the direct description (equal by C18_multimerge_fold_*)
+        a_fold, a_direct = core.run_driver([{**op, "how": how or "outer"}, op])
+        if a_fold[0] != "ok" or a_direct[0] != "ok":
+            chk.model_error(f"multimerge model op failed: {a_fold} {a_direct}")
             continue
+        if how in (None, "outer", "inner") and (sorted(a_fold[1]["cols"]) != sorted(a_direct[1]["cols"]) or
+                                               {k: c for k, c in a_fold[1]["rows"]} != {k: c for k, c in a_direct[1]["rows"]}):
+            chk.model_error(f"multimerge: fold model and direct model disagree on {json.dumps(op)[:400]}")
+            continue
+        a = a_fold
         mcols = a[1]["cols"]
         model_map = {k: dict(zip(mcols, cells)) for k, cells in a[1]["rows"]}
         real_map = {str(k): {c: cell(out.loc[k, c]) for c in out.columns} for k in out.index}
